@@ -153,7 +153,7 @@ def merge(reports):
 
 
 def write_replay(prop, tier, seed, v):
-    d = os.path.join(core.ROOT, "replays", prop)
+    d = os.path.join(os.environ.get("RV_REPLAY_DIR") or os.path.join(core.ROOT, "replays"), prop)
     os.makedirs(d, exist_ok=True)
     h = hashlib.sha1(json.dumps([v["monitor"], v["workload"], v["index"], seed, tier], sort_keys=True).encode()).hexdigest()[:12]
     p = os.path.join(d, f"{h}.json")
@@ -250,8 +250,11 @@ def conclude(prop, tier, seed, merged, t0, write_evidence=True):
         "violations": int(n_viol),
     }
     if write_evidence:
-        os.makedirs(os.path.join(core.ROOT, "evidence"), exist_ok=True)
-        with open(os.path.join(core.ROOT, "evidence", f"{prop}.json"), "w") as f:
+        # RV_EVIDENCE_DIR: used by tools/reseed.py and tools/seeded.py so that a run against a patched scratch copy never
+        # overwrites the evidence of the real tree
+        evdir = os.environ.get("RV_EVIDENCE_DIR") or os.path.join(core.ROOT, "evidence")
+        os.makedirs(evdir, exist_ok=True)
+        with open(os.path.join(evdir, f"{prop}.json"), "w") as f:
             json.dump(ev, f, indent=1, default=str)
     return status, lines, ev
 
